@@ -1,6 +1,8 @@
 package main
 
 import (
+	"sync/atomic"
+	"sync"
 	"crypto/x509"
 	"encoding/asn1"
 	"encoding/pem"
@@ -159,5 +161,60 @@ func vBase(r *hx.Run) {
 			w := world.Build(s)
 			emitWorld(r, w, honestOracle(w), "honest")
 		}
+	}
+}
+
+// cvConcurrent: verifications of DIFFERENT quotes running at the same time, each with its own options, getter and message,
+// must each give the verdict they give alone (harness-only lines, one per world).  The worlds are verified alone first; then
+// 16 goroutines cycle through them for `dur`; every deviation is counted against the world it happened to.
+func cvConcurrent(r *hx.Run, prop string, worlds []*world.World, dur time.Duration) {
+	once := func(w *world.World) string {
+		o := &verify.Options{GetCollateral: w.Spec.GC, CheckRevocations: w.Spec.CR, Getter: &world.Getter{M: w.Getter.M}, TrustedRoots: w.Pool()}
+		if n := w.Spec.Now; n != nil {
+			o.Now = vTimeSet(n)
+		}
+		var err error
+		res, _ := hx.Guard(func() string { err = verify.TdxQuote(proto.Clone(w.Quote).(*pb.QuoteV4), o); return "" })
+		if res == "panic" {
+			return "panic"
+		}
+		if err != nil {
+			return "err"
+		}
+		return "ok"
+	}
+	solo := make([]string, len(worlds))
+	for i, w := range worlds {
+		solo[i] = once(w)
+	}
+	dev := make([]atomic.Int64, len(worlds))
+	runs := make([]atomic.Int64, len(worlds))
+	first := make([]atomic.Value, len(worlds))
+	deadline := time.Now().Add(dur)
+	var wg sync.WaitGroup
+	for g := 0; g < 16; g++ {
+		wg.Add(1)
+		go func(g int) {
+			defer wg.Done()
+			for k := g; time.Now().Before(deadline); k++ {
+				i := k % len(worlds)
+				v := once(worlds[i])
+				runs[i].Add(1)
+				if v != solo[i] {
+					if dev[i].Add(1) == 1 {
+						first[i].Store(v)
+					}
+				}
+			}
+		}(g)
+	}
+	wg.Wait()
+	for i, w := range worlds {
+		obs, fail := "stable "+solo[i], ""
+		if n := dev[i].Load(); n > 0 {
+			obs = "deviates"
+			fail = fmt.Sprintf("%d of %d verifications of this quote that ran concurrently with verifications of OTHER quotes (own options each) gave %v; alone it gives %s [world: %s]", n, runs[i].Load(), first[i].Load(), solo[i], w.Spec.Fault)
+		}
+		r.Emit(fmt.Sprintf("# %s.concurrent world=%d fault=%s", prop, i, w.Spec.Fault), obs, fail, fmt.Sprintf("concurrent|%d", i), true, "concurrent", "solo:"+solo[i])
 	}
 }
